@@ -223,7 +223,7 @@ fn configs(thorough: bool, seed: u64) -> Vec<Cfg> {
     }
     // random general-regime configurations
     let mut r = Rng::derive(seed, 303, 0);
-    let n_rand = if thorough { 40 } else { 12 };
+    let n_rand = if thorough { 120 } else { 48 };
     for _ in 0..n_rand {
         let cycle = (0.01 + r.unit() * 20.0) as f32;
         let delay = if r.chance(1, 4) { 0.0 } else { (r.unit() * 10.0 - 1.0) as f32 };
@@ -231,7 +231,12 @@ fn configs(thorough: bool, seed: u64) -> Vec<Cfg> {
             0 => Rep::None,
             1 => Rep::Times(0),
             2 => Rep::Times(r.below(8) as u32 + 1),
-            3 => Rep::Times(1 << r.below(21)),
+            3 => match r.below(3) {
+                0 => Rep::Times(1 << r.below(21)),
+                // repeat counts beyond 2^24, where n and n+1 round differently in f32
+                1 => Rep::Times((1u32 << 24) + r.below(1 << 12) as u32),
+                _ => Rep::Times(((1u64 << (25 + r.below(7))) + r.below(1 << 20)) as u32),
+            },
             _ => Rep::Infinite,
         };
         v.push(Cfg { cycle, delay, rep, rev: r.chance(1, 2) });
@@ -271,7 +276,7 @@ pub fn run(run: &mut Run) {
     ];
     run.min_sigs = 12;
     let cfgs = configs(thorough, run.seed);
-    let n_fixed = if thorough { cfgs.len() - 40 } else { 3 };
+    let n_fixed = if thorough { cfgs.len() - 120 } else { 3 };
     let rc = run.replay_case();
     run.extra.push(("configurations".into(), J::A(cfgs.iter().map(|c| c.json()).collect())));
     let ended_obs = std::sync::Mutex::new(vec![(f32::INFINITY, f32::NEG_INFINITY); cfgs.len()]);
@@ -349,13 +354,29 @@ pub fn run(run: &mut Run) {
         {
             run.acc.violation("c03:meta", format!("delay/cycle/repeat accessors ({}, {:?}, {:?}) differ from configured {:?}", tl.delay(), tl.cycle_duration(), tl.repeat(), cfg), case("accessors"));
         }
+        // three roundings (count, product, sum) => at most 1.5 ulp from the real total
         let dur_ok = if want_total.is_infinite() {
             dur == f32::INFINITY
         } else {
-            dur.is_finite() && (dur as f64 - want_total).abs() <= 2.0 * ulp32(want_total as f32) as f64
+            dur.is_finite() && (dur as f64 - want_total).abs() <= 1.5 * ulp32(want_total as f32) as f64 + 1e-30
         };
         if !dur_ok {
             run.acc.violation("c03:duration", format!("duration() = {dur} but delay + cycle x (repeats+1) = {want_total} for {:?}", cfg), case("duration"));
+        }
+        // the reported total must agree with the behaviour: just after it the timeline is over, just
+        // before it (and after the delay) it is not
+        if dur.is_finite() && want_total.is_finite() {
+            let ts = cfg.ts();
+            let u = ulp32(dur);
+            let after = dur + 3.0 * u;
+            let before = dur - 3.0 * u;
+            run.acc.evals(2);
+            if after.is_finite() && observe(&ts, after).phase != Phase::Ended {
+                run.acc.violation("c03:duration-vs-behaviour", format!("duration() = {dur} but the timeline is still {:?} at t = {after} for {:?}", observe(&ts, after).phase, cfg), case("duration agrees with behaviour (late)"));
+            }
+            if before > cfg.delay + 3.0 * u && before > 0.0 && observe(&ts, before).phase == Phase::Ended {
+                run.acc.violation("c03:duration-vs-behaviour", format!("duration() = {dur} but the timeline has already Ended at t = {before} for {:?}", cfg), case("duration agrees with behaviour (early)"));
+            }
         }
         // behaviour agrees with the reported duration
         let (first_ended, last_not_ended) = obs[ci];
